@@ -12,7 +12,9 @@ import mklake  # noqa: E402
 
 def main():
     mklake.main()
-    props = sorted(os.path.basename(p)[:-5] for p in glob.glob(os.path.join(common.LEAN, "PsyVerif", "Props", "C*.lean")))
+    import json
+    manifest = json.load(open(os.path.join(common.ROOT, "MANIFEST.json")))
+    props = sorted(c["property_id"] for c in manifest["checks"])
     with common.lake_lock():
         for p in props:
             try:
@@ -23,7 +25,8 @@ def main():
                 for rel, text in mod.gen().items():
                     common.write_if_changed(os.path.join(common.LEAN, rel), text)
         targets = ["PsyVerif"] + ["PsyVerif.Props." + p for p in props]
-        targets += ["drv_" + os.path.basename(d)[:-5].lower() for d in glob.glob(os.path.join(common.LEAN, "Drivers", "*.lean"))]
+        targets += ["drv_" + p.lower() for p in props + ["MiniF"]
+                    if os.path.exists(os.path.join(common.LEAN, "Drivers", p + ".lean"))]
         rc, out = common._run(["lake", "build"] + targets, cwd=common.LEAN, timeout=7000)
     print(out[-3000:])
     return rc
